@@ -468,7 +468,8 @@ class RandGen:
                 st = p.local([name], [f])
                 self.declare(name, FN, assignable=False, meta=meta)
             else:
-                st = p.assign([p.id(name)], [f])
+                # global function: plain assignment or the statement sugar "function name(...) end"
+                st = p.assign([p.id(name)], [f]) if form < 0.85 else p.funcstat(p.id(name), f)
                 self.declare_global(name, FN, assignable=False, meta=meta)
             out = [st]
             v = [x for x in self.visible(FN) if x.name == name][0]
